@@ -284,6 +284,7 @@ func (d *D) ROR2(query bool, shuffle *rand.Rand) (string, bool) {
 
 type namedString string
 type namedMap map[string]any
+type namedBytes []byte
 
 // Any renders the document as the untyped Go value tree the interface reader consumes. A value
 // has several Go shapes that the reader must treat alike (d.Go picks one): integers of every
@@ -319,6 +320,16 @@ func (d *D) Any() any {
 			return uint64(1 << 40)
 		}
 		return uint16(7)
+	case "other2":
+		// byte arrays held by value (not slices): nothing the reader supports, and nothing to panic on
+		switch d.Go % 3 {
+		case 1:
+			return [][4]byte{{1, 2, 3, 4}}
+		case 2:
+			type fx [2]byte
+			return fx{7, 8}
+		}
+		return [4]byte{1, 2, 3, 4}
 	case "int":
 		switch d.Go % 5 {
 		case 1:
@@ -354,7 +365,9 @@ func (d *D) Any() any {
 		}
 		return d.B
 	case "str":
-		switch d.Go % 4 {
+		switch d.Go % 5 {
+		case 4:
+			return namedBytes(append([]byte{}, d.S...))
 		case 1:
 			return append([]byte{}, d.S...)
 		case 2:
@@ -367,6 +380,9 @@ func (d *D) Any() any {
 	case "bytes":
 		if d.Go%2 == 1 && len(d.S) == 0 {
 			return []byte(nil)
+		}
+		if d.Go%3 == 2 {
+			return namedBytes(append([]byte{}, d.S...))
 		}
 		return append([]byte{}, d.S...)
 	case "arr":
